@@ -52,11 +52,23 @@ def rand_err_skip(rng, tree, roots):
     return err, skip
 
 
+def reachable(sc):
+    """Tree entries without what lies below a directory that cannot be opened (mode 000): those are never seen."""
+    locked = set(sc.get("locked", []))
+    out = []
+    for t in sc["tree"]:
+        parts = t.rstrip("/").split("/")
+        if any("/".join(parts[:i]) in locked for i in range(1, len(parts))):
+            continue
+        out.append(t)
+    return out
+
+
 def expected_nodes(sc):
     """Entries the walk must hand out: everything not below a directory at which the visitor answers Skip."""
     skip = set(sc.get("skip", []))
     out = []
-    for n in [t.rstrip("/") for t in sc["tree"]]:
+    for n in [t.rstrip("/") for t in reachable(sc)]:
         parts = n.split("/")
         if any("/".join(parts[:i]) in skip for i in range(1, len(parts))):
             continue
@@ -65,7 +77,7 @@ def expected_nodes(sc):
 
 
 def header(sc):
-    nodes = [t.rstrip("/") for t in sc["tree"]]
+    nodes = [t.rstrip("/") for t in reachable(sc)]
     ch = {n: [] for n in nodes}
     for n in nodes:
         if "/" in n:
@@ -79,10 +91,14 @@ def run_recorder(scens, timeout=600):
     path = vlib.hbin("record_walk")
     results = {}
     todo = list(scens)
+    # scenarios with directories of mode 000 only mean something to a process that is not root
+    cmd = (["setpriv", "--reuid=65534", "--regid=65534", "--clear-groups"] if any(s.get("locked") for s in scens) else []) + [path]
     while todo:
-        p = vlib.run([path], input=vlib.ndjson(todo), timeout=timeout)
+        p = vlib.run(cmd, input=vlib.ndjson(todo), timeout=timeout)
         lines = [json.loads(l) for l in p.stdout.decode().splitlines() if l.strip()]
         for r in lines:
+            if r.get("toolerror"):
+                raise vlib.ToolError("record_walk: %s" % r["toolerror"])
             results[r["id"]] = r
         if p.returncode == 0:
             break
@@ -104,7 +120,7 @@ def run_recorder_parallel(scens, nproc=8):
 
 def judge_run(sc, r):
     """Property-level verdict on one recorded execution."""
-    nodes = [t.rstrip("/") for t in sc["tree"]]
+    nodes = [t.rstrip("/") for t in reachable(sc)]
     if r["hang"]:
         return "walk did not terminate (scheduler step bound / watchdog)"
     if r.get("panic"):
@@ -262,7 +278,15 @@ def main(tier):
             roots = list(roots)
             roots.insert(rng.randint(0, len(roots)), "<stdin>")
             samefs = rng.random() < 0.8
-        scens.append({"id": i + 1, "tree": tree, "roots": roots, "threads": threads, "seed": rng.randrange(1 << 30), "samefs": samefs,
+        locked = []
+        inner = [t.rstrip("/") for t in tree if t.endswith("/") and t.rstrip("/") not in roots and t.rstrip("/") not in err]
+        if inner and rng.random() < 0.2:
+            # a directory of mode 000 (the recorder runs as uid nobody for these): handed out itself, nothing below it
+            locked = [rng.choice(inner)]
+            err = [e for e in err if not e.startswith(locked[0] + "/")]
+            skip = [x for x in skip if not x.startswith(locked[0] + "/")]
+            quit = [x for x in quit if not x.startswith(locked[0] + "/")]
+        scens.append({"id": i + 1, "tree": tree, "roots": roots, "threads": threads, "seed": rng.randrange(1 << 30), "samefs": samefs, "locked": locked,
                       "mode": rng.choice(["random", "pct", "pct"]), "quit": quit, "err": err, "skip": skip, "max_steps": 40000,
                       "badparent": rng.random() < 0.25,
                       "pct_depth": rng.randint(1, 4), "pct_horizon": 20 + 8 * len(nodes)})
